@@ -195,9 +195,10 @@ def uniform_HSBM(n, m, p, sizes, seed=None):
 
     for block in itertools.product(block_range, repeat=m):
         if p[block] == 1:  # Test edges cases p_ij = 0 or 1
-            edges = itertools.product((partition[i] for i in block_range))
+            edges = itertools.product(*(partition[i] for i in block))
             for e in edges:
-                H.add_edge(e)
+                if len(set(e)) == m:
+                    H.add_edge(e)
         elif p[block] > 0:
             partition_sizes = [len(partition[i]) for i in block]
             max_index = reduce(operator.mul, partition_sizes, 1)
